@@ -197,6 +197,8 @@ func goValue(it Iface) (interface{}, bool) {
 		case types.Float32:
 			return float32(v.Float()), true
 		}
+	case Native:
+		return v.v, true
 	case nil:
 		if it.t == nil {
 			return nil, true
@@ -747,4 +749,70 @@ func (e *Exec) freshEnvVar(w uint8) *Term {
 	t := mk(Term{Op: OVar, W: w, Name: fmt.Sprintf("env%d", e.nvars)})
 	e.nvars++
 	return t
+}
+
+// ---- sync.Once (model): runs f at most once per Once value; f's effects are synchronised ----
+func init() {
+	intrinsics["(*sync.Once).Do"] = func(e *Exec, a []Value) Value {
+		p := a[0].(Ptr)
+		if p.slot == nil {
+			e.gopanic("nil pointer dereference (sync.Once)")
+		}
+		if e.onceDone == nil {
+			e.onceDone = map[*Value]bool{}
+		}
+		if e.onceDone[p.slot] {
+			return nil
+		}
+		e.onceDone[p.slot] = true
+		e.modelsUsed["sync.Once (model)"]++
+		e.held++
+		e.lockEvents++
+		defer func() { e.held-- }()
+		e.call(a[1], nil, 0)
+		return nil
+	}
+}
+
+// ---- sync/atomic (model: sequentially consistent accesses; counted as synchronised) ----
+func init() {
+	for _, ty := range []string{"Int32", "Int64", "Uint32", "Uint64", "Uintptr", "Pointer"} {
+		ty := ty
+		intrinsics["sync/atomic.Load"+ty] = func(e *Exec, a []Value) Value {
+			return e.load(a[0].(Ptr))
+		}
+		intrinsics["sync/atomic.Store"+ty] = func(e *Exec, a []Value) Value {
+			e.held++
+			defer func() { e.held-- }()
+			e.store(a[0].(Ptr), a[1])
+			return nil
+		}
+		intrinsics["sync/atomic.Swap"+ty] = func(e *Exec, a []Value) Value {
+			e.held++
+			defer func() { e.held-- }()
+			old := e.load(a[0].(Ptr))
+			e.store(a[0].(Ptr), a[1])
+			return old
+		}
+		intrinsics["sync/atomic.CompareAndSwap"+ty] = func(e *Exec, a []Value) Value {
+			e.held++
+			defer func() { e.held-- }()
+			old := e.load(a[0].(Ptr))
+			if e.decide(e.equals(old, a[1])) {
+				e.store(a[0].(Ptr), a[2])
+				return tTrue
+			}
+			return tFalse
+		}
+		if ty != "Pointer" {
+			intrinsics["sync/atomic.Add"+ty] = func(e *Exec, a []Value) Value {
+				e.held++
+				defer func() { e.held-- }()
+				old := e.load(a[0].(Ptr)).(*Term)
+				nv := Bin(OAdd, old, a[1].(*Term))
+				e.store(a[0].(Ptr), nv)
+				return nv
+			}
+		}
+	}
 }
